@@ -68,6 +68,9 @@ static void blk_ops(void) {
 		for (long i = 0; i < N; i++) { if (!vh_next()) continue; venv_reset(SA); venv_fail_at(i); memset(OB, 0xEE, 4096); lb = 0; int r = OPS[oi].f(OB, &lb); vh_eval(vh_mix(oi * 1000 + 100 + (uint64_t)i));
 			if (venv_cur()->failed == 0) continue; /* this run did not reach draw i (data-dependent retry count) */
 			if (r == 1) { snprintf(key, sizeof key, "C18:%s:reports-success-although-draw-failed", OPS[oi].name); vh_viol(key, "\"failed_draw\":%ld,\"of\":%ld,\"outlen\":%zu", i, N, lb); } }
+		/* a candidate that is out of range forces a redraw: draw j answered with all-0xff octets, draw j+1 failing (retry loops must fail closed too) */
+		for (long j = 0; j < N && j < 48; j++) { if (!vh_next()) continue; venv_reset(SA); venv_ff_at(j); venv_fail_at(j + 1); memset(OB, 0xEE, 4096); lb = 0; int r = OPS[oi].f(OB, &lb); vh_eval(vh_mix(oi * 1000 + 600 + (uint64_t)j));
+			if (venv_cur()->failed == 0) continue; if (r == 1) { snprintf(key, sizeof key, "C18:%s:reports-success-although-redraw-failed", OPS[oi].name); vh_viol(key, "\"all_ff_draw\":%ld,\"failed_draw\":%ld,\"outlen\":%zu", j, j + 1, lb); } }
 	}
 }
 /* long same-stream sequences: nonces never reused (r values of signatures over one digest, C1 of ciphertexts) */
